@@ -24,6 +24,7 @@ NOFORWARD: Dict[Tuple[str, str, str], str] = {
     ("cog._tifffile:save_cog_with_dask", "_norm_compression_tifffile", "kw"): "passed as kw=kw",
     ("_xr_interop:xr_zeros", "wrap_xr", "geobox"): "positional second argument",
     ("geobox:GeoBox.from_geopolygon", "to_crs", "resolution"): "homonym: pixel resolution of the grid vs densification distance of Geometry.to_crs",
+    ("overlap:compute_output_geobox", "to_crs", "resolution"): "homonym: output pixel size vs densification distance of Geometry.to_crs (the projected geometry is the one-pixel probe)",
     ("geom:lonlat_bounds", "to_crs", "resolution"): "lonlat_bounds densifies with segmented(resolution) itself before projecting",
     ("geobox:GeoBoxBase.compute_zoom_to", "from_bbox", "shape"): "call sits in the `shape is None` branch, the grid is resolution-driven there",
     ("data.__init__:ocean_geom", "__init__", "crs"): "features are lon/lat GeoJSON; the requested crs is applied by to_crs afterwards",
